@@ -110,7 +110,8 @@ def c12(tier, seed):
               world("w_cref_incl_cancont", filt=1, arg=1, mode=1, key=2, cancont=1, threading=1, fraction=0.4, only_tags=["wrappers"]),
               world("w_ref_nocancont", filt=1, arg=2, fraction=0.4, only_tags=["wrappers"], fill="0xFF"),
               world("w_val_cancont_byvalue", filt=1, arg=0, cancont=2, fraction=0.5, only_tags=["wrappers"]),          # the policy takes the arguments by value
-              world("w_val_incl_cancont_byvalue", filt=1, arg=0, mode=1, key=1, cancont=2, fraction=0.3, only_tags=["wrappers"], fill="0x00")]
+              world("w_val_incl_cancont_byvalue", filt=1, arg=0, mode=1, key=1, cancont=2, fraction=0.3, only_tags=["wrappers"], fill="0x00"),
+              world("w_ref_cancont_byref", filt=1, arg=2, cancont=3, fraction=0.5, only_tags=["wrappers"], fill="0xAB")]       # prototype and policy take Payload &
     return {"interp": "harness/dq_interp.cpp", "trace_module": "TraceDQ", "models": models, "worlds": worlds,
             "nontrivial_key": "nested",
             "rule": "every transition of the bounded DQImpl model with MixinFilter: filters added/removed (also from inside filters and listeners), scripted "
